@@ -12,6 +12,13 @@ var c06CallerWaits = map[string]string{
 	dbT + "getAtRevision": "called by Get after the indexing wait",
 }
 
+// call sites that may read precommitted transactions
+var c06PrecommittedAllowed = map[string]string{
+	"embedded/store.(*ImmuStore).syncBinaryLinking -> embedded/store.(*ImmuStore).newTxReader": "recovery: the hash tree covers precommitted transactions too",
+	"pkg/database.(*db).AllowCommitUpto -> embedded/store.(*ImmuStore).ReadTxHeader":         "replica: validates the Alh of a precommitted tx before allowing its commit",
+	"pkg/database.(*db).ExportTxByID -> embedded/store.(*ImmuStore).ReadTxHeader":            "primary: validates the precommitted state a replica reports",
+}
+
 // index reads that are not part of the KV API the property lists
 var c06NotKV = map[string]string{
 	dbT + "VerifiableSQLGet": "SQL point read, not one of the KV operations C06 quantifies over (it reads the live index without waiting; SQL commits are asynchronous w.r.t. indexing, so it may observe the previous version of a row — noted in DESIGN.md, not claimed)",
@@ -137,6 +144,69 @@ func c06(c *Ctx) {
 	if f := c.mustFn(r, "embedded/store.(*indexer).WaitForIndexingUpto"); f != nil {
 		c.ruleMustPass(r, f, nil, "wHub.WaitFor", callTo(whWaitFor+"@wHub"), nil, false)
 	}
+
+	// ---- C06.4 one read, one state: a function that took a snapshot reads through it, never through the live index
+	r = "C06.4/snapshot-consistency"
+	snapAcq := callTo(dbT+"snapshotSince", storeT+"SnapshotMustIncludeTxID", storeT+"SnapshotMustIncludeTxIDWithRenewalPeriod")
+	nsnapFns := 0
+	for _, fn := range c.allFns {
+		if !fnInPkgs(fn, []string{"pkg/database"}) || len(fn.Blocks) == 0 {
+			continue
+		}
+		acq := sites(fn, snapAcq)
+		if len(acq) == 0 || fnName(fn) == dbT+"snapshotSince" {
+			continue
+		}
+		nsnapFns++
+		live := func(in ssa.Instruction) bool {
+			cc := callOf(in)
+			if cc == nil {
+				return false
+			}
+			if matchCall(cc, storeReads) && hasFieldSuffix(desc(cc.Args[0]), "st") {
+				return true
+			}
+			for _, a := range cc.Args {
+				if isStoreAsIndex(a) {
+					return true
+				}
+			}
+			return false
+		}
+		q := &pathQ{fn: fn, from: acq, to: live}
+		if w := q.bypass(); w != nil {
+			c.fail(r, fnName(fn)+":reads-through-its-snapshot", c.pos(w[len(w)-1].Pos()), "after taking a snapshot the function also reads the live index: one response can mix two states of the database")
+		} else {
+			c.ok(r, fnName(fn)+":reads-through-its-snapshot", c.pos(fn.Pos()), "no live-index read is reachable after the snapshot was taken")
+		}
+	}
+	if nsnapFns < 5 {
+		c.undecided(r, "floor", fmt.Sprintf("expected >=5 snapshot-based readers in pkg/database, found %d", nsnapFns))
+	}
+	// ---- C06.5 no dirty reads: precommitted (not yet committed) transactions are readable only where listed ---------
+	r = "C06.5/allow-precommitted"
+	npc := 0
+	for _, fn := range c.allFns {
+		if len(fn.Blocks) == 0 || !(fnInPkgs(fn, []string{"embedded/store", "pkg/database", "pkg/server", "pkg/replication", "embedded/sql", "embedded/document"})) {
+			continue
+		}
+		allInstrs(fn, false, func(in ssa.Instruction) {
+			cc := callOf(in)
+			if cc == nil || cc.StaticCallee() == nil {
+				return
+			}
+			for i, p := range cc.StaticCallee().Params {
+				if p.Name() != "allowPrecommitted" || i >= len(cc.Args) || desc(cc.Args[i]) != "const:true" {
+					continue
+				}
+				npc++
+				key := fnName(topFn(fn)) + " -> " + fnName(cc.StaticCallee())
+				reason, ok := c06PrecommittedAllowed[key]
+				c.check(ok, r, "allowPrecommitted=true:"+key, c.pos(in.Pos()), "allowed: "+reason, "a not-yet-committed transaction is made readable at a call site that is not in the allow-list: "+key)
+			}
+		})
+	}
+	c.count("allowPrecommitted_true_sites", npc)
 
 	// ---- C06.2 writes return after commit and indexing -----------------------------------------------------------
 	r = "C06.2/writes-wait"
